@@ -2,8 +2,20 @@
    ONLY statements: each theorem is closed by `exact` of a lemma proved elsewhere and followed by Print Assumptions. *)
 From Coq Require Import ZArith NArith List Bool Lia Permutation SpecFloat.
 Import ListNotations.
-Require Import Base Float Builtins Eq Strings Interp Machine Spec Refine2 RunG Order Complex.
+Require Import Base Float Strings Builtins Interp Machine Spec Refine2 RunG EqLink Eq Order Complex.
 Open Scope Z_scope.
+(* the built-in ㄴ on two arguments is veqb on their key forms - the relation the theorems below are about *)
+Theorem eq_two (rec : list positive -> heap -> world -> task -> out) (key : value -> value) (KEYS : forall ip h w a, rec ip h w (TComp (proc_body (PKey a))) = Done h w (inl (key a)) 0) sp a b ip h w :
+  runG rec value ip h w (bi_eq sp [a; b]) = DoneG h w (inl (VBool (veqb (key a) (key b)))) 0.
+Proof. exact (EqLink.eq_two rec key KEYS sp a b ip h w). Qed.
+Print Assumptions eq_two.
+
+(* with more arguments: every later key equals the first *)
+Theorem eq_many (rec : list positive -> heap -> world -> task -> out) (key : value -> value) (KEYS : forall ip h w a, rec ip h w (TComp (proc_body (PKey a))) = Done h w (inl (key a)) 0) sp a l ip h w :
+  runG rec value ip h w (bi_eq sp (a :: l)) = DoneG h w (inl (VBool (forallb (fun b => veqb (key a) (key b)) l))) 0.
+Proof. exact (EqLink.eq_many rec key KEYS sp a l ip h w). Qed.
+Print Assumptions eq_many.
+
 Theorem veqb_sym  :
   forall a b, veqb a b = veqb b a.
 Proof. exact (Eq.veqb_sym ). Qed.
